@@ -485,6 +485,11 @@ class Interp:
 
     def ev_InitListExpr(self, n, st):
         out = []
+        if (type_range(n.get('type')) or type_range(n.get('dtype'))) is not None and len(children(n)) <= 1:
+            # braced scalar `std::ptrdiff_t{x}` / `int{}`: the value itself (no narrowing is allowed) / zero
+            if not children(n):
+                return [(VInt(0), st)]
+            return self.ev(children(n)[0], st)
         for vals, s in self.evs(children(n), st):
             out.append((VTuple(vals), s))
         return out
@@ -1071,23 +1076,17 @@ class Interp:
                 out.append((VTop, s))
             return out
         if name in ('min', 'max') and len(args) == 2:
+            # min(a, b) is a when a <= b and b otherwise (max: the other way round): the two cases
+            # are separate paths, each with the comparison as a fact, exactly like the ternary
+            # `a <= b ? a : b` it abbreviates
             out = []
             for (a, b), s in self.evs(args, st):
                 if isinstance(a, VInt) and isinstance(b, VInt):
-                    v = self.typed_unknown(n, s, wire=a.lf.has_wire() or b.lf.has_wire())
-                    if isinstance(v, VInt):
-                        sy = next(iter(v.lf.t))
-                        la, lb_, ha, hb = s.lo(a.lf), s.lo(b.lf), s.hi(a.lf), s.hi(b.lf)
-                        if name == 'min':
-                            lo = None if la is None or lb_ is None else min(la, lb_)
-                            hi = ha if hb is None else (hb if ha is None else min(ha, hb))
-                        else:
-                            lo = la if lb_ is None else (lb_ if la is None else max(la, lb_))
-                            hi = None if ha is None or hb is None else max(ha, hb)
-                        s.refine(sy, lo, hi)
-                    out.append((v, s))
+                    ts, fs = self.compare('<=', a, b, s, None)
+                    first, second = (a, b) if name == 'min' else (b, a)
+                    out += [(first, t) for t in ts] + [(second, f) for f in fs]
                 else:
-                    out.append((VTop, s))
+                    out.append((self.result_unknown(n, s), s))
             return out
         out = []
         for vals, s in self.evs(args, st):
@@ -1375,6 +1374,12 @@ class Interp:
     def ex_DeclStmt(self, n, st):
         live = [st]
         for d in children(n):
+            if d.get('kind') == 'DecompositionDecl':
+                nxt = []
+                for s in live:
+                    nxt += self.decompose(d, s)
+                live = nxt
+                continue
             if d.get('kind') != 'VarDecl':
                 continue
             init = [x for x in children(d) if not x['kind'].endswith('Attr')]
@@ -1430,6 +1435,42 @@ class Interp:
                     nxt.append(s2)
             live = nxt
         return [Outcome(None, s) for s in live]
+
+    def decompose(self, d, st):
+        """`auto [a, b] = init;` - the bindings name the components of the initialiser: the items
+        of a pair / tuple value positionally, the fields of an aggregate by name.  A component that
+        is not known gets the unconstrained value of its type (a pointer: unknown buffer)."""
+        binds = [b for b in children(d) if b.get('kind') == 'BindingDecl']
+        init = [x for x in children(d) if x.get('kind') != 'BindingDecl' and not x['kind'].endswith('Attr')]
+        is_ref = '&' in (d.get('type') or '')
+        out = []
+        for v, s in (self.ev(init[-1], st) if init else [(VTop, st)]):
+            for i, b in enumerate(binds):
+                ids = [b['id']]
+                bc = children(b)
+                be = strip(bc[0], explicit=True) if bc else {}
+                if be.get('kind') == 'DeclRefExpr':       # tuple-like: the hidden variable holding get<i>()
+                    ids.append((be.get('referencedDecl') or {}).get('id'))
+                item = None
+                if isinstance(v, VTuple) and len(v.items) == len(binds):
+                    item = v.items[i]
+                elif isinstance(v, VObj) and be.get('kind') == 'MemberExpr':
+                    fp = v.path + (be.get('name'),)
+                    if is_ref:
+                        for j in ids:
+                            s.vars.pop((j,), None)
+                            s.alias[j] = fp
+                        continue
+                    item = s.vars.get(fp)
+                for j in ids:
+                    s.alias.pop(j, None)
+                    for key in [key for key in s.vars if key[:1] == (j,)]:
+                        del s.vars[key]
+                    s.sizes.pop((j,), None)
+                    if item is not None and not isinstance(item, VTopT):
+                        s.vars[(j,)] = item
+            out.append(s)
+        return out
 
     def ex_ReturnStmt(self, n, st):
         c = children(n)
@@ -1582,7 +1623,7 @@ class Interp:
                         p = self.path_of(children(callee)[0], st)
                         if p:
                             muts.add(p)
-                elif k == 'VarDecl':
+                elif k in ('VarDecl', 'BindingDecl'):
                     mod.add((x['id'],))
                 if tgt is not None:
                     p = self.path_of(tgt, st)
